@@ -120,10 +120,34 @@ def _observed_decoding(q):
         return None
 
 
+SPEC_MISMATCH = []
+
+
+def spec_tie_in(lit: str, exp) -> None:
+    """the decoding spec the deductive part proves the parser against (/verif/spec/text.py: dec_from, dec_bad, dec_dangling),
+    run natively on the literal body, must agree with the ABNF oracle on every valid literal (a disagreement is a fault of
+    the specification, not of /repo: it aborts the run)"""
+    if exp is None or len(lit) < 2:
+        return
+    from spec import text as T
+
+    body = lit[1:-1]
+    if lit[0] == "'":
+        body = body.replace('"', '\\"').replace("\\'", "'")
+    try:
+        bad, dang = T.dec_bad(body, 0), T.dec_dangling(body, 0)
+        val = None if bad or dang else "".join(T.dec_from(body, 0))
+    except RecursionError:
+        return
+    if bad or dang or val != exp:
+        SPEC_MISMATCH.append({"literal": lit, "oracle": exp, "spec": {"bad": bad, "dangling": dang, "value": val}})
+
+
 def check_literal(lit: str, out: list) -> None:
     import jsonpath_rfc9535 as jp
 
     exp, cause = strlit.parse_literal(lit)
+    spec_tie_in(lit, exp)
     for position in ("name", "comparison"):
         if position == "name":
             query = "$[" + lit + "]"
@@ -362,7 +386,9 @@ def _work(task):
         if n_lit % 997 == 1 and len(samples) < 3 and len(viol) == before:
             samples.append({"literal": lit, "oracle": exp if exp is not None else "INVALID: " + strlit.invalid_cause(lit),
                             "verdict": "implementation agrees in both positions"})
-    return n_lit, n_nontrivial, _trim(viol), per_kind_count, samples
+    mism = list(SPEC_MISMATCH[:5])
+    del SPEC_MISMATCH[:]
+    return n_lit, n_nontrivial, _trim(viol), per_kind_count, samples, mism
 
 
 def run(tier: str, seed: int) -> dict:
@@ -405,6 +431,9 @@ def run(tier: str, seed: int) -> dict:
 
     # interleave for load balance, deterministic
     results = pmap(_work, tasks)
+    mism = [m for r in results for m in r[5]]
+    if mism:
+        raise RuntimeError("decoding spec (spec/text.py) disagrees with the ABNF oracle on valid literals: " + repr(mism[:3]))
     n_lit = sum(r[0] for r in results)
     n_nt = sum(r[1] for r in results)
     viol = []
